@@ -52,6 +52,12 @@ def uriValue (v : Cps) : Cps :=
     if (q = 0x22 ∨ q = 0x27) ∧ value.getLast? = some q then ((unescQuote q value).drop 1).dropLast
     else value
 
+/-- the `name` setters of `CSSImportRule` (`cssimportrule.py:405-414`) and `CSSMediaRule`
+(`cssmediarule.py:276-284`): `if not name: name = None` — an empty name is no name -/
+def storedName : Option Cps → Option Cps
+  | some [] => none
+  | n => n
+
 /-! ## `@charset` — the encoding (`csscharsetrule.py:99-105`); whether the rule is accepted (a known codec …)
 stays with the oracle -/
 
